@@ -456,6 +456,14 @@ class NumbaBackend(NumpyBackend):
         shape_in_full = (grid.dim,) * operator_info.rank_in + grid._shape_full
         shape_out = (grid.dim,) * operator_info.rank_out + grid.shape
 
+        # Ghost cells that no boundary condition sets (e.g., those of the tangential
+        # components when `normal_*` conditions are used) must not expose memory that
+        # was used for something else before
+        if isinstance(bcs, BoundariesList):
+            init_full = any(bc.normal for axis in bcs for bc in axis)
+        else:
+            init_full = True
+
         # define numpy version of the operator
         def apply_op(
             arr: NumericArray, out: NumericArray | None = None, args=None
@@ -474,7 +482,10 @@ class NumbaBackend(NumpyBackend):
                 raise ValueError(msg)
 
             # prepare input with boundary conditions
-            arr_full = np.empty(shape_in_full, dtype=arr.dtype)
+            if init_full:
+                arr_full = np.zeros(shape_in_full, dtype=arr.dtype)
+            else:
+                arr_full = np.empty(shape_in_full, dtype=arr.dtype)
             arr_full[(..., *grid._idx_valid)] = arr  # type: ignore
             bcs.set_ghost_cells(arr_full, args=args)
 
@@ -507,7 +518,10 @@ class NumbaBackend(NumpyBackend):
 
                     out = np.empty(shape_out, dtype=arr.dtype)
                     # prepare input with boundary conditions
-                    arr_full = np.empty(shape_in_full, dtype=arr.dtype)
+                    if init_full:
+                        arr_full = np.zeros(shape_in_full, dtype=arr.dtype)
+                    else:
+                        arr_full = np.empty(shape_in_full, dtype=arr.dtype)
                     set_valid_and_bcs(arr_full, arr, args=args)
 
                     # apply operator
@@ -531,7 +545,10 @@ class NumbaBackend(NumpyBackend):
                         raise ValueError("Incompatible shapes of output array")  # noqa: EM101, TRY003
 
                     # prepare input with boundary conditions
-                    arr_full = np.empty(shape_in_full, dtype=arr.dtype)
+                    if init_full:
+                        arr_full = np.zeros(shape_in_full, dtype=arr.dtype)
+                    else:
+                        arr_full = np.empty(shape_in_full, dtype=arr.dtype)
                     set_valid_and_bcs(arr_full, arr, args=args)
 
                     # apply operator
